@@ -154,7 +154,11 @@ func (w *World) buildRequest(ctx context.Context, rq *Rq) (*http.Request, error)
 	if rq.Pragma == 1 {
 		req.Header.Set("Pragma", "no-cache")
 	}
-	for _, l := range w.con.renderCC(w.con.reqDirectives(rq), rq.Sp) {
+	ccLines := rq.Ccl
+	if ccLines == nil {
+		ccLines = w.con.renderCC(w.con.reqDirectives(rq), rq.Sp)
+	}
+	for _, l := range ccLines {
 		req.Header.Add("Cache-Control", l)
 	}
 	if rq.Range == 1 {
